@@ -2,7 +2,7 @@ import LenaModel.Model.Val
 /-! # C07 model — nested-dictionary algebra (`lena/context/functions.py`)
 
 Transcription of `intersection` (lines 341-418), `difference` (66-108, the repaired version),
-`update_recursively` (601-653) and `update_nested` (538-598) on slot vectors (`Model/Val.lean`).
+`update_recursively` (611-663) and `update_nested` (548-608) on slot vectors (`Model/Val.lean`).
 
 A `for key in d:` loop whose body reads `d[key]`, `other.get(key)` and writes `result[key]` is
 the pointwise function `…L` of the per-key body `…O`; the body receives `d.get(key)` and
@@ -59,6 +59,8 @@ def interO (lv : Int) : Option (Val α) → Option (Val α) → Option (Val α)
     else if lv = 1 then none                 -- `if level == 1: to_delete.append(key)`
     else match v, w with
       | .dict x, .dict y =>                  -- both dictionaries: `res[key] = intersection(…, level-1)`
+        -- (the callee's `if level == 0:` test is transcribed although it is dead here — `lv = 1` was tested just above,
+        -- so `lv - 1 = 0` is false — exactly as it is dead in the Python for this call)
         some (.dict (if lv - 1 = 0 then interLevel0 x y else interL (lv - 1) x y))
       | _, _ => none                         -- `else: to_delete.append(key)`
 /-- the loop `for key in res:` followed by `for key in to_delete: del res[key]` -/
@@ -138,7 +140,7 @@ end diff
 /-! ## update_recursively -/
 
 mutual
-/-- body of `for key, val in other.items():` (lines 644-653); first argument `d.get(key)`,
+/-- body of `for key, val in other.items():` (lines 654-663); first argument `d.get(key)`,
 second `other.get(key)`; result: the binding of `key` in `d` afterwards -/
 def updO : Option (Val α) → Option (Val α) → Option (Val α)
   | d, none => d                                     -- key not in other: untouched
@@ -154,7 +156,7 @@ def updL : Slots α → Slots α → Slots α
 end
 
 /-- `update_recursively(d, other)` for arbitrary values, returning the new value of `d`:
-`LenaTypeError` unless both are dictionaries (lines 640-643).  (A string `other` is converted
+`LenaTypeError` unless both are dictionaries (lines 650-653).  (A string `other` is converted
 by `str_to_dict` first; that belongs to C08.) -/
 def updateRecursively (d other : Val α) : Out (Slots α) :=
   match d, other with
@@ -193,7 +195,7 @@ def nestL (k : Nat) (dk : Val α) : Nat → Slots α → Out (Slots α)
     | .typeError => .typeError
 end
 
-/-- `update_nested(key, d, other)` (lines 593-598) returning the new `d`
+/-- `update_nested(key, d, other)` (lines 603-608) returning the new `d`
 (whose `d[key]` is the modified `other`) -/
 def updateNested (k : Nat) (d other : Slots α) : Out (Slots α) :=
   match getSlot d k with
